@@ -10,9 +10,9 @@ HOOKS = dict(
 ENGINES = [
     dict(name="vf", path="vf/", serves_properties=["C20"],
          kind_free_text="Hypothesis / exhaustive-enumeration runner with sharding over 16 processes, bucketed findings, replay files"),
-    dict(name="sandbox", path="vf/sandbox.py", serves_properties=["C03"],
+    dict(name="sandbox", path="vf/sandbox.py", serves_properties=["C03", "C15"],
          kind_free_text="E1: crash-isolating forked children (death attributed to the exact case), RLIMIT_AS memory allowance"),
-    dict(name="rustext", path="vf/rustext.py", serves_properties=["C03"],
+    dict(name="rustext", path="vf/rustext.py", serves_properties=["C03", "C15"],
          kind_free_text="rebuilds the PyO3 crates from the working tree (cargo --offline) and loads them ahead of stale .so files; pure-Python twin loader"),
     dict(name="cgit", path="vf/cgit.py", serves_properties=["C20", "C03"],
          kind_free_text="hermetic C git 2.39.5 subprocess oracle (differential)"),
@@ -21,6 +21,14 @@ NOTES = ("Run ./check <ID> quick|thorough from /verif.  Exit 0/1/2 = held / VIOL
          "known_findings.json lists repaired defects (status fixed, regression inputs) and open findings.")
 NOT_APPLICABLE = {}
 CHECKS = {
+    "C15": dict(
+        level="exploration",
+        engine="vf+sandbox",
+        technique="differential testing of each Rust/Python twin on generated, mutated and exhaustively enumerated inputs in crash-isolating children; repository-level battery run with extensions on and forced off",
+        text="parse_tree, sorted_tree_items, apply_delta, create_delta, bisect_find_sha, _merge_entries, _is_tree and _count_blocks are called with identical well-typed inputs on both implementations (extension rebuilt from the working tree): both must return equal values or both fail; Rust panics and process deaths are violations. Mode strings up to length 4 (thorough 5) and short deltas are enumerated exhaustively; a deterministic repository battery (commit_tree, tree_changes with rename detection, deltified pack round trip, tree re-parse) must give identical results pure vs rust.",
+        design_ref="DESIGN.md §4 C15, §3 E1",
+        note="alarmed domain = inputs well-typed per the annotations (id length 20/32, modes 0..2^32-1, '/'- and NUL-free names); debug-profile build",
+    ),
     "C03": dict(
         level="exploration",
         engine="vf+sandbox",
